@@ -724,6 +724,10 @@ class StrategyBase(Node):
 
                 # avoid useless update call
                 if c._issec and not c._needupdate:
+                    # a security closed earlier on this date still counts
+                    # towards the bid/offer paid on this date
+                    if self._bidoffer_set and c.now == date:
+                        bidoffer_paid += c._bidoffer_paid
                     continue
 
                 c.update(date, data, inow)
